@@ -75,9 +75,14 @@ CONF = {
     'C': _neighbor(N2, ['10.0.0.0/24 next-hop 3.3.3.3 med 10', '10.0.7.0/24 next-hop 1.1.1.1'], hold=90)
          + _neighbor(N3, ['10.1.0.0/24 next-hop 1.1.1.1']),
 }
+# every file defines the API process the neighbors talk to (Configuration.processes is what the main loop hands to
+# Processes.start() after EVERY reload: a process missing from it is terminated)
+PROC = ['process svc {', ' run /bin/cat;', ' encoder text;', '}']
+for _k in list(CONF):
+    CONF[_k] = PROC + CONF[_k]
 # D: the second neighbor leaves the configuration.  (Coming back to A or B re-adds it: a new Peer, a new session, and only
 # the routes of that file - whatever an earlier incarnation of the neighbor had in its Adj-RIB-Out.)
-CONF['D'] = _neighbor(N2, ['10.0.0.0/24 next-hop 1.1.1.1 med 10', '10.0.5.0/24 next-hop 1.1.1.1'])
+CONF['D'] = PROC + _neighbor(N2, ['10.0.0.0/24 next-hop 1.1.1.1 med 10', '10.0.5.0/24 next-hop 1.1.1.1'])
 API_ROUTE = 'route 10.7.0.0/24 next-hop 1.1.1.1 med 77'   # a prefix no configuration uses
 
 
@@ -258,6 +263,7 @@ class World:
     def snapshot(self):
         return {
             'neighbors': dict(self.cfg.neighbors),
+            'processes': {k: dict(v) for k, v in self.cfg.processes.items()},
             'peers': {k: (p, p.neighbor, p._neighbor, p._teardown, p._restart) for k, p in self.reactor._peers.items()},
             'pending': {k: p.neighbor.rib.outgoing.pending() for k, p in self.reactor._peers.items()},
             'tables': {k: list(t.rows) for k, t in self.tables.items()},
@@ -282,6 +288,12 @@ def check_unchanged(ctx, w, before, how, info):
     else:
         state = None
     ctx.check('neighbors-as-before', state is None, sig='C17:fault:%s:configuration.neighbors-%s' % (how, state), info=info)
+    # Reactor._async_main_loop: self.reload(); self.processes.start(self.configuration.processes) - whatever reload() answered
+    procs = {k: dict(v) for k, v in cfg.processes.items()}
+    gone = sorted(set(before['processes']) - set(procs))
+    ctx.check('api-processes-as-before', procs == before['processes'],
+              sig='C17:fault:%s:api-processes-%s' % (how, 'terminated' if gone else 'changed'),
+              info=dict(info, processes_before=sorted(before['processes']), processes_after=sorted(procs), terminated_by_the_main_loop=gone))
     touched = []
     for k, p in w.reactor._peers.items():
         b = before['peers'].get(k)
@@ -383,8 +395,10 @@ def h_fault_text(ctx, keep, new_name):
     if r is not False:
         return ['accepted', kind, j]
     ctx.cover('refused:%s' % kind)
-    if j > new.index('}') + 1:
+    if j > new.index('}', len(PROC)) + 1:
         ctx.cover('defect-after-a-complete-neighbor')
+    if j < len(PROC):
+        ctx.cover('defect-before-the-process-section-ends')
     check_unchanged(ctx, w, before, 'text', info)
     if not with_api:
         check_api_alive(ctx, w, 'text', info)
@@ -561,7 +575,7 @@ def units(tier):
     us = []
     for new in (('B', 'C') if th else ('B',)):
         us.append(Unit('fault/text/%s' % new, lambda ctx, new=new: h_fault_text(ctx, new),
-                       must_cover=tuple('refused:%s' % k for k in FAULT_KINDS) + ('defect-after-a-complete-neighbor',), weight=60,
+                       must_cover=tuple('refused:%s' % k for k in FAULT_KINDS) + ('defect-after-a-complete-neighbor', 'defect-before-the-process-section-ends'), weight=60,
                        max_seconds=900))
         us.append(Unit('fault/exception/%s' % new, lambda ctx, new=new: h_fault_exception(ctx, new), must_cover=('refused',), weight=60,
                        max_seconds=900))
